@@ -307,7 +307,8 @@ class Gen:
 
 
 PULLED = {("Reservoir", "FWTW"), ("FWTW", "Distribution"), ("Distribution", "Demand"), ("River", "Reservoir"), ("River", "RiverReservoir"),
-          ("UnlimitedDistribution", "Demand"), ("Distribution", "ResidentialDemand"), ("UnlimitedDistribution", "ResidentialDemand")}
+          ("UnlimitedDistribution", "Demand"), ("Distribution", "ResidentialDemand"), ("UnlimitedDistribution", "ResidentialDemand"),
+          ("Groundwater", "FWTW"), ("Groundwater", "Reservoir"), ("QueueGroundwater", "FWTW"), ("QueueGroundwater", "Reservoir")}
 
 
 PULLERS = ("Reservoir", "RiverReservoir", "FWTW", "Distribution", "UnlimitedDistribution", "Demand", "ResidentialDemand",
